@@ -95,7 +95,14 @@ def sys_isa_yaml(cfg) -> str:
     syms = ''
     if cfg['syms']:
         # a value of None is an explicit null in the file ("value:"): a symbol that is defined and stands for no text
-        syms = '  symbols:\n' + ''.join(f'    - name: "{n}"\n      value:' + ('' if v is None else f' "{v}"') + '\n' for n, v in cfg['syms'])
+        # a decimal value is written without quotes for some names (YAML then loads a number, which stands for its text)
+        def sym_val(n, v):
+            if v is None:
+                return ''
+            if v.isdigit() and str(int(v)) == v and (v == '5' or len(n) % 2 == 0):
+                return f' {v}'
+            return f' "{v}"'
+        syms = '  symbols:\n' + ''.join(f'    - name: "{n}"\n      value:' + sym_val(n, v) + '\n' for n, v in cfg['syms'])
     pre = ''
     if zones or consts or data or syms:
         pre = 'predefined:\n' + zones + consts + data + syms
